@@ -58,6 +58,16 @@ def scenarios(rng, quick):
         {"StartAt": "A", "States": {"A": task("f0")}}]}}}
     out.append(explore.Scenario("par-of-map", m, {"items": [1, 2]}, {"g": [("ok",)], "f0": [("ok",)]},
                                 {"f0": 15, "g": 10}))
+    # a Map nested in the iterations of a Map that uses MaxConcurrency (the inner Map is entered afresh in every batch)
+    for omc in (1, 2):
+        for imc in (0, 1):
+            inner = {"Type": "Map", "ItemsPath": "$.xs", "MaxConcurrency": imc, "End": True,
+                     "Iterator": {"StartAt": "T3", "States": {"T3": task("g")}}}
+            m = {"StartAt": "O", "States": {"O": {"Type": "Map", "ItemsPath": "$.items", "MaxConcurrency": omc, "End": True,
+                                                  "Iterator": {"StartAt": "I", "States": {"I": inner}}}}}
+            out.append(explore.Scenario("map-in-map-omc%d-imc%d" % (omc, imc), m,
+                                        {"items": [{"xs": [1, 2]}, {"xs": [3]}, {"xs": []}, {"xs": [4, 5]}]},
+                                        {"g": [("ok",)]}, {"g": 10}))
     m = {"StartAt": "M", "States": {"M": {"Type": "Map", "ItemsPath": "$.items", "End": True,
                                           "Iterator": {"StartAt": "IP", "States": {"IP": {"Type": "Parallel", "End": True, "Branches": [
                                               {"StartAt": "A", "States": {"A": task("f0")}},
